@@ -143,10 +143,14 @@ def _getattr(tree):
                 return '(.objectGet %s)' % tgt
         raise ValueError('Class.__getattr__: action outside the expected shape: %s' % '; '.join(ast.unparse(s) for s in stmts))
     if not isinstance(st, ast.If):
-        raise ValueError('Class.__getattr__: expected `if <name> in self.__dict__:`')
-    tested = [tgt for var, tgt in TARGETS.items() if _same_expr(st.test, '%s in self.__dict__' % var)]
-    if not tested:
-        raise ValueError('Class.__getattr__: test outside the expected shape: %s' % ast.unparse(st.test))
+        # ONE unconditional statement on a match (`return object.__getattribute__(self, attr)`): the same action whether or not
+        # the name is in `__dict__` - emitted as a test with two equal arms (the tested name then does not matter)
+        uncond = act([st])
+        st = None
+    else:
+        tested = [tgt for var, tgt in TARGETS.items() if _same_expr(st.test, '%s in self.__dict__' % var)]
+        if not tested:
+            raise ValueError('Class.__getattr__: test outside the expected shape: %s' % ast.unparse(st.test))
     # after the loop only the caller's name is in scope as a MATCH (the loop variable holds the last declared attribute, or is
     # unbound): a fall-through statement that uses it is refused
     if _is([after], 'return object.__getattribute__(self, name)'):
@@ -155,6 +159,8 @@ def _getattr(tree):
         fall = '.dictValueGiven'
     else:
         raise ValueError('Class.__getattr__: fall-through statement outside the expected shape: %s' % ast.unparse(after))
+    if st is None:
+        return match, '.declared', uncond, uncond, fall
     return match, tested[0], act(st.body), act(st.orelse), fall
 
 
@@ -171,20 +177,28 @@ def _setattr(tree):
             if _is(stmts, 'return object.__setattr__(self, %s, value)' % var):
                 return '(.objectSet %s)' % tgt
         raise ValueError('Class.__setattr__: action outside the expected shape: %s' % '; '.join(ast.unparse(s) for s in stmts))
+    uncond = None
     if not isinstance(st, ast.If):
-        raise ValueError('Class.__setattr__: expected `if <name> in self.__dict__:`')
-    tested = [tgt for var, tgt in TARGETS.items() if _same_expr(st.test, '%s in self.__dict__' % var)]
-    if not tested:
-        raise ValueError('Class.__setattr__: test outside the expected shape: %s' % ast.unparse(st.test))
-    # the matched branch must leave the loop (return) — otherwise the fall-through statement would also run
-    if not (_is(st.body[-1:], 'return') and isinstance(st.orelse[-1], ast.Return)):
-        raise ValueError('Class.__setattr__: a matched attribute falls through to the statement after the loop')
+        # ONE unconditional statement on a match, which must leave the loop (`return object.__setattr__(self, attr, value)`): the
+        # same action whether or not the name is in `__dict__` - emitted as a test with two equal arms
+        if not isinstance(st, ast.Return):
+            raise ValueError('Class.__setattr__: a matched attribute falls through to the statement after the loop')
+        uncond = act([st])
+    else:
+        tested = [tgt for var, tgt in TARGETS.items() if _same_expr(st.test, '%s in self.__dict__' % var)]
+        if not tested:
+            raise ValueError('Class.__setattr__: test outside the expected shape: %s' % ast.unparse(st.test))
+        # the matched branch must leave the loop (return) — otherwise the fall-through statement would also run
+        if not (_is(st.body[-1:], 'return') and isinstance(st.orelse[-1], ast.Return)):
+            raise ValueError('Class.__setattr__: a matched attribute falls through to the statement after the loop')
     if _is([after], 'self.__dict__[name] = value'):
         fall = '.dictStoreGiven'
     elif _is([after], 'return object.__setattr__(self, name, value)') or _is([after], 'object.__setattr__(self, name, value)'):
         fall = '.objectSetGiven'
     else:
         raise ValueError('Class.__setattr__: fall-through statement outside the expected shape: %s' % ast.unparse(after))
+    if uncond is not None:
+        return match, '.declared', uncond, uncond, fall
     return match, tested[0], act(st.body), act(st.orelse), fall
 
 
